@@ -149,14 +149,20 @@ pub struct RealRun {
 
 /// Run html5ever's tokenizer over `chunks` (one push_back + feed loop per chunk).
 pub fn run_real(case: &Case, chunks: &[String], discard_bom: bool) -> RealRun {
+    // a PLAINTEXT start is requested either through the option or (every other input) through the
+    // public Tokenizer::set_plaintext_state()
+    let via_method = matches!(case.cold, Cold::Plaintext) && case.input.len() % 2 == 1;
     let opts = TokenizerOpts {
         exact_errors: case.exact_errors,
         discard_bom,
         profile: false,
-        initial_state: Some(case.cold.real()),
+        initial_state: if via_method { None } else { Some(case.cold.real()) },
         last_start_tag_name: case.last_start_tag.clone(),
     };
     let tok = Tokenizer::new(RealSink::new(&case.policy), opts);
+    if via_method {
+        tok.set_plaintext_state();
+    }
     let input = BufferQueue::default();
     let mut results = vec![];
     let mut leftover = false;
